@@ -6,7 +6,7 @@ A call ``f(a, b, k=c)`` is inlined when
     ``@torch.jit.script`` helpers are ordinary python for this purpose),
   * it occurs as a whole statement (``f(...)``), as the value of an assignment (``x = f(...)``, ``x, y = f(...)``) or of
     a return (``return f(...)``),
-  * the callee has no ``*args`` / ``**kwargs``, no nested function definitions and no ``yield``, and - unless the call
+  * the callee has no ``*args`` / ``**kwargs``, no nested ``def`` (lambdas are renamed through) and no ``yield``, and - unless the call
     is in ``return`` position - all its ``return`` statements sit at the very end of its body (a single exit).
 
 Binding: a parameter whose argument is a plain name is RENAMED to that name (so that an in-place update of the parameter
@@ -35,7 +35,16 @@ class _Rename(ast.NodeTransformer):
     def visit_FunctionDef(self, node):  # do not descend into nested scopes (none are expected)
         return node
 
-    visit_Lambda = visit_AsyncFunctionDef = visit_FunctionDef
+    visit_AsyncFunctionDef = visit_FunctionDef
+
+    def visit_Lambda(self, node: ast.Lambda):
+        # a lambda closes over the enclosing names: rename inside its body, except what its own parameters shadow
+        a = node.args
+        own = {x.arg for x in list(a.posonlyargs) + list(a.args) + list(a.kwonlyargs)} | (
+            {a.vararg.arg} if a.vararg else set()) | ({a.kwarg.arg} if a.kwarg else set())
+        sub = _Rename({k: v for k, v in self.mapping.items() if k not in own})
+        node.body = sub.visit(node.body)
+        return node
 
 
 def _assigned_names(body: List[ast.stmt]) -> Set[str]:
@@ -52,7 +61,7 @@ def _inlinable(callee: ast.FunctionDef, tail_position: bool) -> bool:
     if a.vararg or a.kwarg or a.posonlyargs:
         return False
     for n in ast.walk(callee):
-        if n is not callee and isinstance(n, (ast.FunctionDef, ast.AsyncFunctionDef, ast.Lambda, ast.Yield, ast.YieldFrom,
+        if n is not callee and isinstance(n, (ast.FunctionDef, ast.AsyncFunctionDef, ast.Yield, ast.YieldFrom,
                                              ast.Global, ast.Nonlocal)):
             return False
     if tail_position:
